@@ -429,43 +429,12 @@ func checkC16(c *an.Ctx) {
 	}
 	ld := p.Func("internal/config", "Loader", "load")
 	bfd := p.Func("internal/config", "", "buildFromDefinition")
-	for _, name := range []string{"Load", "LoadGlobalConfig"} {
-		f := p.Func("internal/config", "Loader", name)
-		if f == nil || ld == nil || dec == nil || bfd == nil {
-			continue
-		}
-		var l1, l2, l3 ssa.CallInstruction
-		for _, s := range p.CallSitesOf(ld) {
-			if s.Parent() == f {
-				l1 = s
-			}
-		}
-		for _, s := range p.CallSitesOf(dec) {
-			if s.Parent() == f {
-				l2 = s
-			}
-		}
-		for _, s := range p.CallSitesOf(bfd) {
-			if s.Parent() == f {
-				l3 = s
-			}
-		}
-		good := l1 != nil && l2 != nil && l3 != nil
-		if good {
-			flow1, flow2 := false, false
-			for _, src := range an.Sources(l2.Common().Args[1]) {
-				if e, ok := src.(*ssa.Extract); ok && e.Tuple == l1.Value() && e.Index == 0 {
-					flow1 = true
-				}
-			}
-			for _, src := range an.Sources(l3.Common().Args[0]) {
-				if e, ok := src.(*ssa.Extract); ok && e.Tuple == l2.Value() && e.Index == 0 {
-					flow2 = true
-				}
-			}
-			good = flow1 && flow2
-		}
-		c.Check(good, "C16.2", an.Short(f)+":pipeline", f.Pos(), "load → decode → buildFromDefinition, each fed by the previous", name+" does not pass the loaded map through decode into buildFromDefinition")
+	_, _ = ld, bfd
+	if f := p.Func("internal/config", "Loader", "Load"); f != nil {
+		loadPipeline(c, "C16.2", f, map[string]bool{"pipeline": true}, false)
+	}
+	if f := p.Func("internal/config", "Loader", "LoadGlobalConfig"); f != nil {
+		loadPipeline(c, "C16.2", f, map[string]bool{"pipeline": true}, true)
 	}
 
 	// C16.3
